@@ -14,8 +14,11 @@ Definition astate := (fin * bool * bool)%type.   (* descriptor, serving = dummy?
 Definition alpha (st : state) : astate :=
   (sfin st, serving (sid st) =? 0, pending_req (sid st) =? 0).
 
+(** what a callback may raise.  A callback raising StopIteration is not distinguished from one raising
+    an arbitrary Exception (inside Request.run both are handled by the same clauses); only the body
+    iterator's next() raises StopIteration, legitimately. *)
 Definition all_exn : list exn :=
-  [XHTTPError; XHTTPRedirect; XInternalRedirect; XException; XStopIteration;
+  [XHTTPError; XHTTPRedirect; XInternalRedirect; XException;
    XKeyboardInterrupt; XSystemExit].
 
 (** what each action may raise: user callbacks and everything that handles
@@ -31,6 +34,8 @@ Definition may (a : action) : list exn :=
   (* framework code that runs outside Request.run (environ parsing, iter() of the finalized body,
      string operations in the redirector): an ordinary Exception at worst *)
   | Other | IterBody => [XException]
+  | NextChunk => XStopIteration :: all_exn
+  | ServerNext | ServerCloseAgain => [XStopIteration]
   | _ => all_exn
   end.
 
@@ -59,11 +64,14 @@ Section A.
     let '(f, sz, pz) := x in (fin_with_cur e f, sz, pz).
 
   Definition a_eval_flag (x : astate) (f : flag) : list bool :=
-    let '(_, sz, _) := x in
+    let '(fi, sz, _) := x in
     match f with
+    | FStartedResponse => [iterating fi]
+    | FResponseHasClose => [negb (init_trapped fi)]
     | FThrowErrors => [throw]
     | FShowTracebacksReq => [showtb]
     | FShowTracebacksServing => [if sz then true else showtb]
+    | FErrorResponseSet => [true]
     | _ => [true; false]
     end.
 
@@ -199,14 +207,14 @@ Section A.
       | Return => Some [(Returned, x)]
       | Loop body =>
         let step := aexec af param body in
-        match close_loop 200 step [] [x] [] with
+        match close_loop af step [] [x] [] with
         | Some (C, Racc) =>
           if mem_a x C && check_closed step C Racc then Some Racc else None
         | None => None
         end
       | ForLoop body =>
         let step := aexec af param body in
-        match close_loop 200 step [] [x] [] with
+        match close_loop af step [] [x] [] with
         | Some (C, Racc) =>
           if mem_a x C && check_closed step C Racc
           then Some (Racc ++ map (fun c => (Normal, c)) C) else None
